@@ -47,9 +47,12 @@ def edge_dominates(an: Analysis, fn: FunctionInfo, test: Node, label, target: No
     """Every path entry -> target (that stays clear of the nodes in *avoid*) takes the edge (test, label)."""
     g = an.cfg(fn)
     mr = oracle(an, fn)
+    # *avoid* may hold nodes and (test node, label) edges: "the paths that do not take this outcome of that test"
+    a_nodes = {x for x in (avoid or ()) if not isinstance(x, tuple)}
+    a_edges = {(id(x[0]), x[1]) for x in (avoid or ()) if isinstance(x, tuple)}
     p = g.path(g.entry, lambda n: n is target, may_raise=mr,
-               edge_filter=lambda a, b, lbl: not (a is test and lbl == label),
-               stop=(lambda n: n in avoid and n is not target) if avoid else None)
+               edge_filter=lambda a, b, lbl: not (a is test and lbl == label) and (id(a), lbl) not in a_edges,
+               stop=(lambda n: n in a_nodes and n is not target) if a_nodes else None)
     return p is None
 
 
@@ -61,7 +64,10 @@ def dominating_guards(an: Analysis, fn: FunctionInfo, target: Node, avoid=None) 
     reach = reachable_from_entry(an, fn)
     if target not in reach:
         return out
-    if avoid and g.path(g.entry, lambda n: n is target, may_raise=oracle(an, fn), stop=lambda n: n in avoid and n is not target) is None:
+    a_nodes = {x for x in (avoid or ()) if not isinstance(x, tuple)}
+    a_edges = {(id(x[0]), x[1]) for x in (avoid or ()) if isinstance(x, tuple)}
+    if avoid and g.path(g.entry, lambda n: n is target, may_raise=oracle(an, fn), stop=lambda n: n in a_nodes and n is not target,
+                        edge_filter=lambda a, b, lbl: (id(a), lbl) not in a_edges) is None:
         return out      # no such path at all: nothing can be claimed
     for t in g.nodes:
         if t.kind != "test" or t not in reach:
